@@ -127,12 +127,12 @@ def error_blocks(body):
     return out
 
 
-def unavoidable_calls(body, entry, region=None):
+def unavoidable_calls(body, entry, region=None, extra_bad=()):
     """Calls that lie on every success path from `entry` to an exit (a `return`, or an edge leaving `region`):
     the error-propagation blocks are pruned, then a call block is unavoidable iff no exit is reachable without it."""
     from collections import Counter
 
-    bad = error_blocks(body)
+    bad = error_blocks(body) | set(extra_bad)
     nodes = {b for b in (region if region is not None else body.reachable()) if b not in bad}
 
     def exits_reachable(skip):
@@ -178,6 +178,40 @@ def unavoidable_calls(body, entry, region=None):
                 if k and exits_reachable(b):  # not already counted as unavoidable on its own
                     out[k] += n
     return out
+
+
+def addfile_region(prog, ab):
+    fo = main_switch(ab, "patch::SqpkFileOperation")
+    if not fo:
+        return None
+    fn_ = {int(v["discr"]): v["name"] for v in prog.adts["patch::SqpkFileOperation"]["variants"]}
+    for v, tgt in fo[2].items():
+        if fn_.get(v) == "AddFile":
+            return D.region(ab, tgt)
+    return None
+
+
+def addfile_writes_when_opened(prog, ab, reg):
+    """Once the target file of an AddFile command is open, the collected data is written: the only way around write_all
+    is the arm taken when the open failed (no skipping of files that "look unchanged").  (shared with C04)"""
+    ixa = index_of(ab)
+    err_arms = []
+    for sb_ in reg:
+        t_ = ab.blocks[sb_]["t"]
+        if t_["k"] != "switch":
+            continue
+        r_ = ixa.resolve(t_["a"])
+        if r_[0] == "rv" and r_[1]["k"] == "discr":
+            dd_ = ixa.single_def(r_[1]["p"]["l"]) if not r_[1]["p"]["p"] else None
+            if dd_ and dd_[0] == "call" and ixa.callee(dd_[3]).endswith("OpenOptions::open"):
+                arms_ = {int(v_): tg_ for v_, tg_ in t_["arms"]}
+                err_t = arms_.get(1, t_.get("else") if 1 not in arms_ else None)
+                if isinstance(err_t, int):
+                    err_arms.append(err_t)
+    tgt_a = min(reg, key=lambda b_: (not all(ab.dominates(b_, x) for x in reg), b_))
+    got_w = unavoidable_calls(ab, tgt_a, reg, extra_bad=err_arms) if err_arms else None
+    ok = bool(err_arms) and got_w is not None and got_w.get("write_all", 0) >= 1 and got_w.get("seek", 0) >= 3
+    return ok, f"AddFile: on the paths where the target file opened, the effects {dict(got_w) if got_w else None} are unavoidable; must include the seek to the command's offset and the write of the collected data"
 
 
 def main_switch(body, ty):
@@ -457,6 +491,8 @@ def run(ctx):
                     if sum(1 for tg in set(sides) if ab.dominates(tg, rb_)) == 1:
                         g = True
             guarded.append(g)
+        okw_, detw_ = addfile_writes_when_opened(prog, ab, reg)
+        ctx.ob("MUSTDO", "AddFile|writes-when-opened", okw_, detw_, ab.file, ab.line)
         ctx.ob("MUSTDO", "AddFile|block-read-guarded", bool(reads) and all(guarded), f"{len(reads)} read_data_block_patch call(s) in the AddFile arm, guarded by the `collected length < file_size` test: {guarded}", ab.file, ab.line)
 
     # ---- PLATFORM
